@@ -179,6 +179,19 @@ def queries(ph, with_thermal=True):
         ph.run_mesh([2, 2, 2])
         ph.run_thermal_properties(t_min=300, t_max=300, t_step=10)
         out["F"] = float(ph.get_thermal_properties_dict()["free_energy"][0])
+        # further access paths (each keeps objects of its own inside Phonopy): band path, mesh with eigenvectors -> displacement matrices, smearing DOS
+        path = np.array([[0.05, 0.02, 0.01], [0.21, 0.13, 0.4], [0.5, 0.5, 0.0]])
+        ph.run_band_structure([path], with_group_velocities=True)
+        fb = np.array(ph.get_band_structure_dict()["frequencies"][0])
+        out["band"] = np.sign(fb) * (fb / factor) ** 2
+        ph.run_mesh([2, 2, 3], with_eigenvectors=True, is_mesh_symmetry=False, is_gamma_center=True)
+        fm = np.array(ph.get_mesh_dict()["frequencies"])
+        out["mesh"] = np.sign(fm) * (fm / factor) ** 2
+        ph.run_thermal_displacement_matrices(t_min=300, t_max=300, t_step=10, freq_min=0.05 * max(np.abs(fm).max(), 1e-12))
+        out["tdm"] = np.array(ph.get_thermal_displacement_matrices_dict()["thermal_displacement_matrices"])[0]
+        top = max(float(np.abs(fm).max()), 1e-6)
+        ph.run_total_dos(sigma=0.07 * top, freq_min=0.0, freq_max=1.1 * top, freq_pitch=top / 11.0, use_tetrahedron_method=False)
+        out["dos"] = np.array(ph.get_total_dos_dict()["total_dos"])
     return out
 
 
@@ -206,6 +219,16 @@ def compare(a, b, scale):
         probs.append("group velocity differs by %.3e" % e)
     if "F" in a and abs(a["F"] - b["F"]) > 1e-9 * max(abs(b["F"]), 1e-3):
         probs.append("free energy differs by %.3e" % abs(a["F"] - b["F"]))
+    for k in ("band", "mesh"):
+        if k in a and k in b:
+            e = np.abs(np.sort(a[k], axis=-1) - np.sort(b[k], axis=-1)).max() if a[k].shape == b[k].shape else np.inf
+            if e > 1e-10 * scale:
+                probs.append("%s eigenvalues differ by %.3e (scale %.3e)" % (k, e, scale))
+    for k, rel in (("tdm", 1e-8), ("dos", 1e-8)):
+        if k in a and k in b:
+            e = np.abs(a[k] - b[k]).max() if a[k].shape == b[k].shape else np.inf
+            if e > rel * max(np.abs(b[k]).max(), 1e-12):
+                probs.append("%s differs by %.3e (max %.3e)" % (k, e, np.abs(b[k]).max()))
     return probs
 
 
